@@ -36,7 +36,8 @@ Definition leeway : Z := 60.                    (* jwt.DefaultLeeway *)
 
 (** [Claims.Validate(Expected{Issuer, Time})] *)
 Definition validate (issuer : bytes) (now : Z) (c : claims) : bool :=
-  bytes_eqb issuer (cl_iss c)
+  (* jwt.Expected{Issuer: ""} does not constrain the issuer *)
+  match issuer with [] => true | _ => bytes_eqb issuer (cl_iss c) end
   && match cl_nbf c with Some n => negb (now + leeway <? n) | None => true end
   && match cl_exp c with Some e => negb (e <? now - leeway) | None => true end
   && match cl_iat c with Some i => negb (now + leeway <? i) | None => true end.
